@@ -130,6 +130,10 @@ fn run_check(prop: &str, tier: &str, seed: u64, out: &str) -> i32 {
     // replays + lines
     let mut exit = 0;
     let _ = std::fs::create_dir_all("/verif/replays");
+    for i in 0..50 {
+        // the early copies are only for runs that die before this point
+        let _ = std::fs::remove_file(format!("/verif/replays/{}_{}_early{}.json", prop, seed, i));
+    }
     // correspondence disagreements without an oracle failure: no failing input found
     let oracle_fail = ctx.violations.iter().any(|v| v.kind != "correspondence");
     let mut printed = 0;
